@@ -781,3 +781,114 @@ Section Lookups.
         * intros _. unfold bounded, cutoff. rewrite Hl', Hst'. apply Forall_forall. intros e He.
           apply filter_In in He as [_ He]. apply N.leb_le in He. exact He.
   Qed.
+
+  (* ================================================================ (c) the lookups of a state with Inv and Ext *)
+
+  (* a parent-linked list of stored blocks is a stored chain *)
+  Lemma linked_chain (l : list entry) : forall X y, linked y X ->
+    (forall x, In x X -> exists e, find (bid x) l = Some e /\ eb e = x) ->
+    (forall x, In x X -> bid x <> y) ->
+    exists E, chain l (match rev X with t :: _ => bid t | [] => y end) y E /\ map eb E = X.
+  Proof.
+    induction X as [|t X' IH] using rev_ind; intros y Hl Hst Hne.
+    - exists []. split; [constructor | reflexivity].
+    - apply linked_split in Hl as [Hl1 Hl2]. cbn [linked] in Hl2. destruct Hl2 as [Hp _].
+      destruct (IH y Hl1) as (E' & Hc & Hm).
+      { intros x Hx. apply Hst. apply in_or_app. left. exact Hx. }
+      { intros x Hx. apply Hne. apply in_or_app. left. exact Hx. }
+      destruct (Hst t) as (et & Hf & Eet); [apply in_or_app; right; left; reflexivity|].
+      exists (E' ++ [et]). rewrite rev_app_distr. cbn [rev app]. split.
+      + econstructor; [apply Hne; apply in_or_app; right; left; reflexivity | exact Hf |].
+        rewrite Eet, Hp. exact Hc.
+      + rewrite map_app, Hm. cbn [map]. rewrite Eet. reflexivity.
+  Qed.
+
+  (* a chain from x is the upper part of the maximal chain from x *)
+  Lemma chain_suffix_of (l : list entry) bot : find bot l = None -> forall x y p, chain l x y p ->
+    forall q, chain l x bot q -> exists q0, q = q0 ++ p /\ chain l y bot q0.
+  Proof.
+    intros Hbot x y p Hp. induction Hp as [x|x y e p Hne Hf Hc IH]; intros q Hq.
+    - exists q. rewrite app_nil_r. auto.
+    - inversion Hq as [z Hz1 Hz2 Hnil | z y' e' q' Hne' Hf' Hc' Hz Hy Heq]; subst.
+      + congruence.
+      + rewrite Hf in Hf'. injection Hf' as <-. destruct (IH _ Hc') as (q0 & -> & H0).
+        exists q0. rewrite app_assoc. auto.
+  Qed.
+
+  (* numbers strictly increase along a parent-linked list of blocks of the universe *)
+  Lemma linked_lt : forall B x, In x U -> (forall z, In z B -> In z U) -> linked (bid x) B ->
+    forall z, In z B -> bnum x < bnum z.
+  Proof.
+    induction B as [|z1 B IH]; intros x Hx HB Hl z Hz; [destruct Hz|].
+    cbn [linked] in Hl. destruct Hl as [Hp Hl].
+    assert (H1 : bnum x < bnum z1) by (apply U_up; [apply HB; left; reflexivity | exact Hx | exact Hp]).
+    destruct Hz as [<-|Hz]; [exact H1|].
+    pose proof (IH z1 (HB z1 (or_introl eq_refl)) (fun w Hw => HB w (or_intror Hw)) Hl z Hz). lia.
+  Qed.
+
+  (* ---------------------------------------------------------------- the shape of a state *)
+
+  (* the consumer chain, oldest first, is a parent-linked list of blocks of the universe *)
+  Lemma stack_linked s Fin S p x : Inv s Fin S -> Ext s Fin S -> chain (store (db s)) x (ri (libref (db s))) p ->
+    (exists y, linked y (Fin ++ map eb p)) /\ (forall c, In c (Fin ++ map eb p) -> In c U).
+  Proof.
+    intros HI HE Hc. split.
+    - pose proof (i_fin_last _ _ _ _ _ _ HI) as Hlast. destruct (chain_linked _ _ _ _ Hc) as [Hlk _].
+      pose proof (x_linked _ _ _ HE) as HL.
+      destruct Fin as [|f0 rest]; cbn [app].
+      + eauto.
+      + exists (bparent f0). cbn [linked fin_linked] in *. split; [reflexivity|].
+        destruct HL as [_ HL]. apply linked_join; [exact HL|]. cbn [rev] in Hlast.
+        destruct (rev rest) as [|t l]; cbn [app] in Hlast; rewrite Hlast; exact Hlk.
+    - intros c Hin. apply in_app_or in Hin as [Hin|Hin].
+      + pose proof (i_fin _ _ _ _ _ _ HI) as Hf. rewrite Forall_forall in Hf. apply (Hf c Hin).
+      + apply in_map_iff in Hin as (e & <- & He). apply (di_inU _ _ _ (i_db _ _ _ _ _ _ HI)). eapply chain_in; eassumption.
+  Qed.
+
+  Record Shape (s : fstate) (Fin : list block) (S : cstack) (hd : block) (p q0 : list entry) (bot : N) (ehd : entry) : Prop := mkShape {
+    sh_p : chain (store (db s)) (bid hd) (ri (libref (db s))) p;
+    sh_S : S = rev (Fin ++ map eb p);
+    sh_q0 : chain (store (db s)) (ri (libref (db s))) bot q0;
+    sh_bot : find bot (store (db s)) = None;
+    sh_q : chain (store (db s)) (bid hd) bot (q0 ++ p);
+    sh_hd : find (bid hd) (store (db s)) = Some ehd;
+    sh_ehd : eb ehd = hd;
+    sh_hdU : In hd U
+  }.
+
+  Lemma shape_of s Fin S hd : Inv s Fin S -> Ext s Fin S -> last_sent s = Some hd ->
+    exists p q0 bot ehd, Shape s Fin S hd p q0 bot ehd.
+  Proof.
+    intros HI HE Hls. pose proof (i_head _ _ _ _ _ _ HI) as Hh. rewrite Hls in Hh.
+    destruct Hh as (HhU & p & Hc & HS & _).
+    pose proof (i_db _ _ _ _ _ _ HI) as Hdb. pose proof (wf_of _ Hdb) as Hwf.
+    destruct (chain_total _ Hwf (fuel_of (db s)) (ri (libref (db s))) (enough_fuel_of _ _)) as (bot & q0 & Hq0 & Hbot).
+    assert (Hst : exists ehd, find (bid hd) (store (db s)) = Some ehd).
+    { destruct p as [|et p' _] using rev_ind.
+      - apply chain_nil_inv in Hc. rewrite Hc. apply find_is_some_in. apply (x_lib _ _ _ HE).
+        intros ->. cbn in HS. apply (x_top _ _ _ HE); [rewrite Hls; discriminate | exact HS].
+      - destruct (chain_top _ _ _ _ _ Hc) as [Hf _]. eauto. }
+    destruct Hst as [ehd Hf]. exists p, q0, bot, ehd. constructor; try assumption.
+    - eapply chain_trans; eassumption.
+    - apply (stored_is_self U U_uniq _ _ _ (di_inU _ _ _ Hdb) HhU Hf).
+  Qed.
+
+  (* ---------------------------------------------------------------- head information *)
+
+  Lemma head_is_top s Fin S : Inv s Fin S -> Ext s Fin S ->
+    last_sent s = match S with top :: _ => Some top | [] => None end.
+  Proof.
+    intros HI HE. destruct (last_sent s) as [hd|] eqn:Hls.
+    - destruct (shape_of s Fin S hd HI HE Hls) as (p & q0 & bot & ehd & [Hc HS _ _ _ Hf Ee HhU]).
+      assert (HSne : S <> []) by (apply (x_top _ _ _ HE); rewrite Hls; discriminate).
+      destruct p as [|et p' _] using rev_ind.
+      + apply chain_nil_inv in Hc. cbn [map] in HS. rewrite app_nil_r in HS.
+        destruct Fin as [|f0 F0 _] using rev_ind; [cbn in HS; contradiction|].
+        rewrite rev_app_distr in HS. cbn [rev app] in HS. rewrite HS. f_equal.
+        pose proof (i_fin_last _ _ _ _ _ _ HI) as Hl. rewrite rev_app_distr in Hl. cbn [rev app] in Hl.
+        pose proof (i_fin _ _ _ _ _ _ HI) as Hfin. apply Forall_app in Hfin as [_ Hfin]. pose proof (Forall_inv Hfin) as [Hf0U _].
+        apply U_uniq; [exact HhU | exact Hf0U | congruence].
+      + destruct (chain_top _ _ _ _ _ Hc) as [Hf' _]. rewrite Hf in Hf'. injection Hf' as <-.
+        rewrite HS, map_app, app_assoc, rev_app_distr. cbn [map rev app]. rewrite Ee. reflexivity.
+    - pose proof (i_head _ _ _ _ _ _ HI) as Hh. rewrite Hls in Hh. destruct Hh as (-> & _). reflexivity.
+  Qed.
